@@ -58,6 +58,12 @@ def gen_case(seed, tier):
             op = {'op': 'incr', 'k': 'ctr%d' % rng.randrange(3)}
         elif r < 0.82:
             op = {'op': rng.choice(('get', 'get', 'getitem', 'contains', 'read', 'peekitem')), 'k': k}
+            if op['op'] == 'get':
+                # the flags take another path through get(): it is a use of the item all the same
+                if rng.random() < 0.3:
+                    op['expire_time'] = True
+                if rng.random() < 0.3:
+                    op['tag'] = True
             if op['op'] == 'peekitem':
                 op = {'op': 'peekitem', 'last': rng.random() < 0.5}
         elif r < 0.86:
